@@ -22,7 +22,7 @@ fn default_opt() -> Opt {
     Opt { opaque: true, wildcard: false, from_impls: false, no_std: false, custom: vec![], annotations: vec![DEFAULT_ANN.into()] }
 }
 
-const FIXED: [(&str, &str); 32] = [
+const FIXED: [(&str, &str); 38] = [
     ("recursion-direct", "Rec ::= SEQUENCE { next Rec OPTIONAL, v INTEGER }"),
     ("recursion-choice", "Tree ::= CHOICE { leaf INTEGER, node SEQUENCE { l Tree, r Tree } }"),
     ("recursion-mutual", "Ra ::= SEQUENCE { b Rb OPTIONAL }\nRb ::= SEQUENCE { a Ra, n NULL }"),
@@ -52,6 +52,18 @@ const FIXED: [(&str, &str); 32] = [
     ("enumerated-numbered-additions", "En1 ::= ENUMERATED { idle, busy, ..., failed(2), unknown }\nEn2 ::= ENUMERATED { a, b, ..., c(5), d }\nEn3 ::= ENUMERATED { a(3), b, c(0), ..., d, e(9), f }\nev En1 ::= unknown"),
     ("components-of-extensible-type", "Tt ::= SEQUENCE { t1 INTEGER, ..., t2 NULL }\nIi ::= SEQUENCE { y BOOLEAN, COMPONENTS OF Tt }\nIj ::= SET { y BOOLEAN, COMPONENTS OF Tt }"),
     ("alias-boolean-string-default", "Bo ::= BOOLEAN\nBa ::= Bo\nSt ::= UTF8String\nSa ::= St\nDd ::= SEQUENCE { a [0] Ba DEFAULT TRUE, b [1] Sa DEFAULT \"x\" }"),
+    // a named INTEGER whose constraints are a set expression or applied one after the other, with a marker in either:
+    // the newtype, a value of it, a DEFAULT of it and an alias value all have to agree on the inner type
+    ("named-integer-serial-and-set-constraints", "Lv ::= INTEGER (0..255)(0..10, ...)\nLw ::= INTEGER (0..100, ...)(0..5)\nCd ::= INTEGER (0..10 | 300)\nCe ::= INTEGER (0..300 ^ 5..10)\nLa ::= Lv\nv1 Lv ::= 5\nv2 Lw ::= 3\nv3 Cd ::= 300\nv4 Ce ::= 7\nv5 La ::= 4\nNs ::= SEQUENCE { a [0] Lv DEFAULT 5, b [1] Lw DEFAULT 3, c [2] Cd DEFAULT 300, d [3] Ce DEFAULT 7, e [4] La DEFAULT 4 }"),
+    // open ends of alphabet ranges
+    ("alphabet-open-ends", "Ao ::= IA5String (FROM (\"a\"..MAX))\nAp ::= IA5String (FROM (MIN..\"f\"))\nAq ::= NumericString (FROM (\"3\"..MAX))\nAr ::= PrintableString (FROM (MIN..MAX))\nAs ::= BMPString (FROM (\"a\"..MAX)) (SIZE (1..4))\nAt ::= SEQUENCE { f VisibleString (FROM (\"A\"..MAX) ^ SIZE (2)) }"),
+    // a fixed-type class field next to tagged alternatives / members
+    ("class-field-next-to-tagged-choice", "ERR ::= CLASS { &code INTEGER UNIQUE, &Type } WITH SYNTAX { CODE &code TYPE &Type }\nCf ::= SEQUENCE { code ERR.&code, c CHOICE { a [5] INTEGER, b [7] BOOLEAN } }\nCg ::= CHOICE { code [1] ERR.&code, x [2] SEQUENCE { y [9] NULL, z [9] EXPLICIT CHOICE { p NULL, q INTEGER } } }"),
+    // selection types as tagged members
+    ("tagged-selection-members", "Ch ::= CHOICE { a INTEGER, b BOOLEAN, c SEQUENCE { n NULL } }\nSl ::= SEQUENCE { x [0] a < Ch, y [1] IMPLICIT b < Ch, z [2] EXPLICIT c < Ch, w a < Ch OPTIONAL }"),
+    ("recursion-types-named-like-wrappers", "BoxNode ::= SEQUENCE { v INTEGER, next BoxNode OPTIONAL }\nBox-Content ::= CHOICE { leaf NULL, more SEQUENCE { a Box-Content, b Box-Content OPTIONAL } }\nOptionList ::= SEQUENCE { head INTEGER, tail OptionList OPTIONAL }\nVecTree ::= SET { kids SEQUENCE OF VecTree, up VecTree OPTIONAL }"),
+    // list elements with a name, with a tag, and with both
+    ("named-and-tagged-list-elements", "Le1 ::= SEQUENCE OF item INTEGER\nLe2 ::= SEQUENCE OF [3] INTEGER\nLe3 ::= SEQUENCE OF item [3] INTEGER\nLe4 ::= SET OF flag [APPLICATION 1] BOOLEAN\nLe5 ::= SEQUENCE { l SET (SIZE (1..4)) OF entry [0] SEQUENCE { a INTEGER } }"),
     ("nested-depth-4", "Dp ::= SEQUENCE { l1 SEQUENCE { l2 CHOICE { l3 SEQUENCE OF SEQUENCE { l4 ENUMERATED { a, b }, k SET { m INTEGER } } } } }"),
     ("set-and-set-of", "St ::= SET { a [0] INTEGER, b [1] BOOLEAN OPTIONAL, ... , c [2] NULL }\nSo ::= SET (SIZE (1..4)) OF St"),
     ("extension-groups", "Eg ::= SEQUENCE { a INTEGER, ..., [[ 2: b BOOLEAN, c NULL OPTIONAL ]], d UTF8String OPTIONAL }"),
